@@ -408,6 +408,10 @@ class DeleteComposableTemplateParamSource(DeleteTemplateParamSource):
         super().__init__(track, params, track.composable_templates, **kwargs)
 
 
+# parameters evaluated by the ``Retry`` runner (see ``esrally.driver.runner``)
+RETRY_SETTINGS = ("retries", "retry-until-success", "retry-wait-period", "retry-on-timeout", "retry-on-error")
+
+
 class DeleteComponentTemplateParamSource(ParamSource):
     def __init__(self, track, params, **kwargs):
         super().__init__(track, params, **kwargs)
@@ -427,11 +431,14 @@ class DeleteComponentTemplateParamSource(ParamSource):
                 raise exceptions.InvalidSyntax(f"Please set the property 'template' for the {params.get('operation-type')} operation.")
 
     def params(self):
-        return {
+        p = {
             "templates": self.template_definitions,
             "only-if-exists": self.only_if_exists,
             "request-params": self.request_params,
         }
+        # the operation is retryable: pass the retry settings to the runner
+        p.update({k: v for k, v in self._params.items() if k in RETRY_SETTINGS})
+        return p
 
 
 class CreateTemplateParamSource(ABC, ParamSource):
@@ -480,10 +487,13 @@ class CreateTemplateParamSource(ABC, ParamSource):
                 dct[k] = merge_dct[k]
 
     def params(self):
-        return {
+        p = {
             "templates": self.template_definitions,
             "request-params": self.request_params,
         }
+        # the operation is retryable: pass the retry settings to the runner
+        p.update({k: v for k, v in self._params.items() if k in RETRY_SETTINGS})
+        return p
 
 
 class CreateComposableTemplateParamSource(CreateTemplateParamSource):
